@@ -69,12 +69,31 @@ def gen_cases(rng, tier):
         else:
             s = big_set(rng, "nums")
             out.append(("arrayify", X.darrow(s, X.dotfn(X.tup([("@", d), ("@item", X.set_([d]))])))))
+    # multi-valued dicts and tuples ordered as wholes, several rank keys with ties, orderings with tied keys
+    for _ in range(60 if tier == "quick" else 600):
+        k = rng.random()
+        s = big_set(rng, "nums")
+        md = "(%s => (@: . %% 3, @value: .))" % X.src(s)
+        if k < 0.2:
+            out.append(("multidict", ("raw", md)))
+        elif k < 0.35:
+            out.append(("multidict|", ("raw", "(%s | {7})" % md)))
+        elif k < 0.5:
+            out.append(("multidict orderby", ("raw", "(%s orderby .)" % md)))
+        elif k < 0.6:
+            out.append(("orderby whole", ("orderby", big_set(rng, rng.choice(["tuples", "mixed", "strs", "nested", "dict", "rel"])))))
+        else:      # (orderby / order with tied keys are exempt by the property's own text: not generated)
+            r = big_set(rng, "rel")
+            keys = [("r", X.dot(d, "b")), ("s", X.dot(d, "c"))] if rng.random() < 0.7 else [("r", X.dot(d, "b")), ("s", X.dot(d, "c")), ("t", X.dot(d, "a"))]
+            out.append(("rank several keys", X.rank(r, X.dotfn(X.tup(keys)))))
     # the committed witness of the open finding: superimposed array items keep "the last one written"
     out.append(("collide", X.darrow(X.set_([N(i) for i in range(1, 14)]), X.dotfn(X.tup([("@", N(0)), ("@item", X.var("."))])))))
     cases = []
     for i, (l, e) in enumerate(out):
         if isinstance(e, tuple) and e and e[0] == "orderby":
             cases.append({"id": i, "label": l, "src": "(%s orderby .)" % X.src(e[1]), "coq": None})
+        elif isinstance(e, tuple) and e and e[0] == "raw":
+            cases.append({"id": i, "label": l, "src": e[1], "coq": None})
         else:
             cases.append({"id": i, "label": l, "ast": e, "src": X.src(e), "coq": X.coq(e)})
     return cases
